@@ -709,14 +709,7 @@ func concurrentRun(res *core.Result, r *rand.Rand, d deliverer, universe []uint3
 	}
 }
 
-func parallel(n int, fn func(w int)) {
-	var wg sync.WaitGroup
-	for w := 0; w < n; w++ {
-		wg.Add(1)
-		go func(w int) { defer wg.Done(); fn(w) }(w)
-	}
-	wg.Wait()
-}
+func parallel(n int, fn func(w int)) { core.Parallel(n, fn) }
 
 var alphaSmall = []uint32{1, 2, 3, 4, 5, 6}
 var alphaWin = []uint32{1, 2, 3, 66, 67, 68, 130, 131}
